@@ -44,7 +44,7 @@ func (s *Server) serveGetKey(rw http.ResponseWriter, req *http.Request) error {
 	keyName := chi.URLParam(req, "key")
 	keyConf, err := s.Config.GetKey(keyName)
 	if err == nil && userInfo.Allowed(keyConf) {
-		info, err := s.getKeyInfo(req.Context(), keyConf)
+		info, err := s.getKeyInfo(req.Context(), keyConf, keyName)
 		if err != nil {
 			return err
 		}
@@ -53,12 +53,15 @@ func (s *Server) serveGetKey(rw http.ResponseWriter, req *http.Request) error {
 	return httperror.ErrForbidden
 }
 
-func (s *Server) getKeyInfo(ctx context.Context, keyConf *config.KeyConfig) (keyInfo, error) {
+// keyName is the requested name: the token resolves it to keyConf again. Handing
+// it keyConf.Name() instead would follow a second alias and reveal a key other
+// than the one the caller was authorized for.
+func (s *Server) getKeyInfo(ctx context.Context, keyConf *config.KeyConfig, keyName string) (keyInfo, error) {
 	tok := s.tokens[keyConf.Token]
 	if tok == nil {
 		return keyInfo{}, fmt.Errorf("missing token \"%s\" for key \"%s\"", keyConf.Token, keyConf.Name())
 	}
-	cert, _, err := signinit.InitKey(ctx, tok, keyConf.Name())
+	cert, _, err := signinit.InitKey(ctx, tok, keyName)
 	if err != nil {
 		return keyInfo{}, err
 	}
